@@ -62,7 +62,7 @@ func allStacks() string {
 func loopGoroutines() int {
 	n := 0
 	for _, g := range strings.Split(allStacks(), "\n\n") {
-		if strings.Contains(g, ").writingLoop") || strings.Contains(g, ").batchingLoop") {
+		if isWriterLoop(g) || isBatcherLoop(g) {
 			n++
 		}
 	}
@@ -72,7 +72,7 @@ func loopGoroutines() int {
 // goroutines inside createOrGetWriter, and how many of them are parked (not running / runnable)
 func inRegistry() (inside, parked int) {
 	for _, g := range strings.Split(allStacks(), "\n\n") {
-		if !strings.Contains(g, "the.createOrGetWriter") {
+		if !strings.Contains(g, "the.EventWriterWithTopic") {
 			continue
 		}
 		inside++
